@@ -1,6 +1,6 @@
 (* lib.rs compile(): lex -> exec -> (flush ties) -> play_from -> normalize/sort -> SMF bytes, and the log text.
    Source text here is what lexer::lex receives (after sutoton::convert). *)
-From Sakura.Model Require Import Base Cursor Event Writer Song Token LexCore RunCore.
+From Sakura.Model Require Import Base Cursor Event Writer Song Token LexCore RunCore Tie.
 From Sakura.Gen Require Import Consts.
 Open Scope Z_scope.
 
@@ -54,15 +54,17 @@ Definition logs_str (logs : list (list ch)) : list ch :=
 
 Definition STEPS : nat := Z.to_nat 400000.
 
-Definition song_after_lex (ls : lexstate) : song := s_set_logs (s_set_timebase song_new (lx_timebase ls)) (lx_logs ls).
+Definition song_after_lex (ls : lexstate) : song := song_with_ls song_new ls.
 
 Definition run_source (src : list ch) : res song :=
-  do lx <- lex (mkLex 96 []) src 0;
+  do lx <- lex (mkLex 96 [] init_vars) src 0;
   let '(toks, ls) := lx in
   exec_f (S (length src)) STEPS toks (Ok (song_after_lex ls)).
 
+(* generate(): flush_tie_notes (pending tied groups of every track), then play_from_all_track *)
 Definition tracks_for_writer (s : song) : list (list event) :=
-  map (fun t => if s_play_from s <? 0 then tr_events t else play_from (s_play_from s) (tr_events t)) (s_tracks s).
+  map (fun t => let evs := tr_events (check_tie_notes (s_timebase s) t) in
+                if s_play_from s <? 0 then evs else play_from (s_play_from s) evs) (s_tracks s).
 
 Definition compile (src : list ch) : res (list byte * list ch) :=
   do s <- run_source src;
